@@ -88,6 +88,12 @@ def zero : Nat := 0
 def one : Nat := 4607182418800017408
 def half : Nat := 4602678819172646912
 def ten : Nat := 4621819117588971520
+def hundred : Nat := 0x4059000000000000
+def c1e4 : Nat := 0x40C3880000000000
+def c1e5 : Nat := 0x40F86A0000000000
+def four : Nat := 0x4010000000000000
+def seven : Nat := 0x401C000000000000
+def nine : Nat := 0x4022000000000000
 
 /-- `a < b` on finite values -/
 def lt (a b : Nat) : Bool := cbv a fun a => cbv b fun b =>
